@@ -1,6 +1,6 @@
 (** C15 — --complement prints exactly what each bound leaves out.  Statements only. *)
 From TucModel Require Import Base.Bytes Base.ListX Model.Bounds Model.CutBytes Model.Scan Model.Opt
-     Model.CutStr Spec.Resolve Proofs.BoundsFacts Proofs.C06 Proofs.C15.
+     Model.CutStr Spec.Resolve Proofs.BoundsFacts Proofs.C06 Proofs.C15 Proofs.C01More Proofs.C09More Proofs.C15More.
 
 (** a resolved bound [s,e) on n parts is replaced, in place, by bounds that resolve to the
     non-empty ones among [0,s) and [e,n), in that order, without fallbacks *)
@@ -26,6 +26,27 @@ Theorem C15_nothing_left_out_fails :
     complement_list l n = None.
 Proof. exact C15_nothing_left. Qed.
 
+(** a whole record: -m is the same invocation without -m on the complemented list - every
+    bound replaced, in place, by the parts before it followed by the parts after it - so
+    order, -j, -r, -s and the EOL are treated by the very same code; and when the bounds leave
+    nothing out the record fails *)
+Theorem C15_complement_is_the_explicit_request :
+  forall (o : opt) (line : bytes) (fields : list mtch) (u : ublist),
+    o_complement o = true ->
+    complement_list (items (o_bounds o)) (length fields) = Some u ->
+    finish_record o line fields = finish_record (with_bounds u (without_complement o)) line fields.
+Proof. exact complement_is_the_explicit_request. Qed.
+
+Theorem C15_nothing_left_fails_the_record :
+  forall (o : opt) (line : bytes) (fields : list mtch),
+    o_complement o = true ->
+    complement_list (items (o_bounds o)) (length fields) = None ->
+    (o_only_delimited o && Nat.eqb (length fields) 1) = false ->
+    finish_record o line fields = RErr.
+Proof. exact complement_of_everything_fails. Qed.
+
 Print Assumptions C15_complement_of_a_bound.
 Print Assumptions C15_selected_parts.
 Print Assumptions C15_nothing_left_out_fails.
+Print Assumptions C15_complement_is_the_explicit_request.
+Print Assumptions C15_nothing_left_fails_the_record.
